@@ -59,7 +59,7 @@ typedef struct {
   int envmask;			/* bit0 XDG_RUNTIME_DIR, bit1 HOME, bit2 TMPDIR set */
   int orc_code;			/* 0 unset 1 emulate 2 backup 3 debug 4 backup,emulate */
   int backup;			/* backup function registered */
-  int codeonly;			/* run through a code-only executor */
+  int codeonly;			/* 0 executor bound to the program after the compile, 1 code-only executor, 2 executor bound before the compile */
   int prog;			/* 0 addw 1 no rule on target (float on mmx) 2 register exhaustion 3 fatal */
 } Cfg;
 static const char *orc_codes[] = { NULL, "emulate", "backup", "debug", "backup,emulate" };
@@ -174,6 +174,7 @@ static int one_use (const Cfg * c, char *msg, size_t cap, int *native)
   OrcExecutor exs, *ex = &exs;
   int i, n = 7, esz = c->prog == 1 ? 4 : 2, before = backup_calls, calls;
   if (c->backup) orc_program_set_backup_function (p, backup_fn);
+  if (c->codeonly == 2) { memset (ex, 0, sizeof (*ex)); orc_executor_set_program (ex, p); }	/* the executor outlives the compile */
   if (c->prog == 1) r = orc_program_compile_for_target (p, orc_target_get_by_name ("mmx"));
   else r = orc_program_compile (p);
   if (c->prog == 3) {
@@ -193,15 +194,15 @@ static int one_use (const Cfg * c, char *msg, size_t cap, int *native)
     int k;
     for (k = 0; k < 8; k++) for (i = 0; i < 16; i++) S[k][i] = (k + 1) * 1000003 + i * 7919;
     memset (D, 0x5a, sizeof (D)); memset (E, 0x5a, sizeof (E));
-    memset (ex, 0, sizeof (*ex));
+    if (c->codeonly != 2) memset (ex, 0, sizeof (*ex));
     memset (&exr, 0, sizeof (exr));
     orc_executor_set_program (&exr, p);
     exr.n = n;
     for (k = 0; k < 4; k++) exr.arrays[ORC_VAR_D1 + k] = E[k];
     for (k = 0; k < 8; k++) exr.arrays[ORC_VAR_S1 + k] = S[k];
     orc_executor_emulate (&exr);
-    if (c->codeonly) { code = orc_program_take_code (p); orc_program_free (p); p = NULL; ex->arrays[ORC_VAR_A2] = code; }
-    else orc_executor_set_program (ex, p);
+    if (c->codeonly == 1) { code = orc_program_take_code (p); orc_program_free (p); p = NULL; ex->arrays[ORC_VAR_A2] = code; }
+    else if (c->codeonly == 0) orc_executor_set_program (ex, p);
     ex->n = n;
     for (k = 0; k < 4; k++) ex->arrays[ORC_VAR_D1 + k] = D[k];
     for (k = 0; k < 8; k++) ex->arrays[ORC_VAR_S1 + k] = S[k];
@@ -215,13 +216,13 @@ static int one_use (const Cfg * c, char *msg, size_t cap, int *native)
     return 0;
   }
   expected (c->prog, s1, s2, e, n);
-  memset (ex, 0, sizeof (*ex));
-  if (c->codeonly) {
+  if (c->codeonly != 2) memset (ex, 0, sizeof (*ex));
+  if (c->codeonly == 1) {
     code = orc_program_take_code (p);
     orc_program_free (p);
     p = NULL;
     ex->arrays[ORC_VAR_A2] = code;
-  } else {
+  } else if (c->codeonly == 0) {
     orc_executor_set_program (ex, p);
   }
   ex->n = n;
@@ -287,7 +288,7 @@ static const char *cfg_str (const Cfg * c)
 {
   static char b[200];
   snprintf (b, sizeof (b), "env=%c%c%c ORC_CODE=%s backup=%d executor=%s program=%s", c->envmask & 1 ? 'X' : '-', c->envmask & 2 ? 'H' : '-', c->envmask & 4 ? 'T' : '-',
-      orc_codes[c->orc_code] ? orc_codes[c->orc_code] : "unset", c->backup, c->codeonly ? "code-only" : "attached", prognames[c->prog]);
+      orc_codes[c->orc_code] ? orc_codes[c->orc_code] : "unset", c->backup, c->codeonly == 1 ? "code-only" : c->codeonly == 2 ? "attached-before-compile" : "attached", prognames[c->prog]);
   return b;
 }
 
@@ -326,7 +327,7 @@ static void report (const Cfg * c, const char *fault, const Report * R)
   int i;
   n_viol++;
   snprintf (key, sizeof (key), "C06|%s|%s|ORC_CODE=%s|backup=%d|%s|%s", R->rc == 3 ? "crash" : R->rc == 2 ? "leak" : "result", fault,
-      orc_codes[c->orc_code] ? orc_codes[c->orc_code] : "unset", c->backup, c->codeonly ? "code-only" : "attached", prognames[c->prog]);
+      orc_codes[c->orc_code] ? orc_codes[c->orc_code] : "unset", c->backup, c->codeonly == 1 ? "code-only" : c->codeonly == 2 ? "attached-before-compile" : "attached", prognames[c->prog]);
   for (i = 0; i < nseen; i++) if (!strcmp (seen[i], key)) return;
   if (nseen < 300) seen[nseen++] = strdup (key);
   v_out ("{\"t\":\"viol\",\"key\":\"%s\",\"what\":\"%s; fault vector %s; calls %s (upper case = failed: m mkstemp, t ftruncate, x exec mmap, w write mmap, a anonymous mmap); config %s\",\"replay\":{\"config\":\"%s\",\"fault\":\"%s\"}}",
@@ -371,7 +372,7 @@ int main (int argc, char **argv)
     for (i = 0; i < 3; i++) { snprintf (p, sizeof (p), "%s/d%d", scratch, i); mkdir (p, 0700); }
   }
   for (ei = 0; ei < ne; ei++) for (c.orc_code = 0; c.orc_code < 5; c.orc_code++) for (c.backup = 0; c.backup < 2; c.backup++)
-    for (c.codeonly = 0; c.codeonly < 2; c.codeonly++) for (c.prog = 0; c.prog < 5; c.prog++) {
+    for (c.codeonly = 0; c.codeonly < 3; c.codeonly++) for (c.prog = 0; c.prog < 5; c.prog++) {
       int fail[8], mask, on;
       c.envmask = thorough ? envt[ei] : envq[ei];
       if ((idx++ % nshards) != shard) continue;
